@@ -53,7 +53,7 @@ def main():
         res["patch_applies"] = ra.returncode == 0
         if not res["patch_applies"]:
             print(ra.stdout)
-        rt = sh("/tmp/seedtools/run_tests.py %s" % wt) if os.path.exists("/tmp/seedtools/run_tests.py") else None
+        rt = sh("%s %s" % (os.path.join(HERE, "tools", "run_tests.py"), wt))
         if rt is None:
             rt = sh("cd %s && PYTHONPATH=%s /venv/bin/python -m pytest -q -p no:cacheprovider --timeout=900 --continue-on-collection-errors | tail -1" % (wt, wt))
         res["tests"] = rt.stdout.strip().splitlines()[0] if rt.stdout.strip() else ""
